@@ -220,6 +220,25 @@ def r3(tree, rep):
 
 
 def run(tree, rep, tier):
+    # R5: when a subchannel closes, Outbound forgets its producer before application code runs: in every SubChannel row the output that tells
+    # the manager `subchannel_closed` comes before the outputs that call into the protocol (a connectionLost() that raises must not leave a
+    # dead subchannel's producer in the rotation)
+    from ..automat_x import Program as _P, output_call_names
+    SC_ = _P(tree).machine("SubChannel")
+    n_rows_ = 0
+    for r_ in SC_.rows.values():
+        closers_ = [i for i, o in enumerate(r_.outputs) if any(cn.endswith(".subchannel_closed") for cn in output_call_names(SC_, o))]
+        apps_ = [i for i, o in enumerate(r_.outputs) if any(is_self_attr(x, "_protocol") for x in ast.walk(SC_.outputs[o]))
+                 and any(isinstance(x, ast.Call) for x in ast.walk(SC_.outputs[o]))]
+        if closers_ and apps_:
+            n_rows_ += 1
+            rep.check("C15.R5", "SubChannel %s.%s tells the manager the subchannel is closed before it calls into the protocol" % (r_.src, r_.inp),
+                      max(closers_) < min(apps_), r_.site, key="C15.R5:SubChannel[%s].%s:closed-before-callback" % (r_.src, r_.inp),
+                      what="SubChannel %s.%s runs %s: the protocol's connectionLost() is called before the manager is told; if it raises, the closed "
+                           "subchannel's producer stays registered and the next drain stops at it (every producer behind it is never resumed)" % (
+                               r_.src, r_.inp, r_.outputs))
+    if n_rows_ < 3:
+        raise AnalysisError("SubChannel: fewer closing rows with a protocol callback than expected (%d)" % n_rows_)
     # R4: the flow-control calls Inbound / Outbound / Manager make on the peer connection exist on the class of the object they are given
     from .. import interfaces
     n_sites = interfaces.check(tree, rep, "C15.R4", ["Inbound", "Outbound", "Manager", "SubChannel"])
